@@ -224,7 +224,7 @@ theorem whiteoutEnd_gen {s0 : St} (hc : Consistent s0) {L : Layer} (hup : s0.dis
     Outcome ((do
         let ri ← pr.createWhiteout n
         insertChild pp n (newNode ri)) s3) (fun _ s' => Consistent s' ∧ Gone pp n s' ∧ FrameX (n :: pp) s0 s')
-      (fun s' => Consistent s' ∧ FrameD s0.disk s'.disk (n :: pp)) := by
+      (fun _ => False) := by
   have hu : s0.disk.upper.isSome := by rw [hup]; rfl
   have hdir0 : (s0.disk.nodeAt 0 pp).isDir = true := by simpa [Disk.nodeAt, Disk.layer, hup] using hpd
   have hnpp : (n :: pp).isSuffixOf pp = false := not_below_parent n pp
@@ -291,7 +291,7 @@ theorem rmdirTail_cons (d0 : Disk) (pp : Path) (n : Name) (s' : St) (h : RmReady
         let s ← getSt
         rmFinish pp n true node pm (!(node.upperLayerOnly && !lowerEntryExists s.disk pm n))) s')
       (fun _ s'' => Consistent s'' ∧ Gone pp n s'' ∧ FrameD d0 s''.disk (n :: pp))
-      (fun s'' => Consistent s'' ∧ FrameD d0 s''.disk (n :: pp)) := by
+      (fun s'' => Consistent s'' ∧ ViewD d0 s''.disk) := by
   obtain ⟨s0, m, r, rest, hc0, hd0, hm, hlo, hr, hd, hcase⟩ := h
   subst hd0
   obtain ⟨pm, hpm, hnk⟩ := hc0.reach n pp m hm
@@ -307,7 +307,7 @@ theorem rmdirTail_cons (d0 : Disk) (pp : Path) (n : Name) (s' : St) (h : RmReady
     have hpm1 : s'.mem pp = some pm := by rw [hm']; exact hpm
     have hcp := copyNodeUp_spec pp s' hc'
     cases hres : copyNodeUp pp s' with
-    | err e s2 => rw [hres] at hcp; rw [bind_err hres]; exact ⟨hcp.1, by rw [← hd']; exact hcp.2.toD _⟩
+    | err e s2 => rw [hres] at hcp; rw [bind_err hres]; exact ⟨hcp.1, by rw [← hd']; exact hcp.2⟩
     | ok u s2 =>
       rw [hres] at hcp
       rw [bind_ok hres]
@@ -330,7 +330,7 @@ theorem rmdirTail_cons (d0 : Disk) (pp : Path) (n : Name) (s' : St) (h : RmReady
       rw [bind_ok (getNode_ok hq2), bind_ok (getNode_ok hpm2), bind_ok (getSt_eval s2)]
       have hfin := rmFinish_cons hcp.cons pp n true hpm2 hpu2 (by rw [hlo2]; exact hplo) hq2 hnw (fun _ => hmu)
       cases hres3 : rmFinish pp n true m pm2 (!(m.upperLayerOnly && !lowerEntryExists s2.disk pm2 n)) s2 with
-      | err e s3 => rw [hres3] at hfin; exact ⟨hfin.1, by rw [← hd']; exact (hv.trans hfin.2).toD _⟩
+      | err e s3 => rw [hres3] at hfin; exact ⟨hfin.1, by rw [← hd']; exact hv.trans hfin.2⟩
       | ok u3 s3 =>
         rw [hres3] at hfin
         exact ⟨hfin.1, hfin.2.1, by rw [← hd']; exact (FrameX.after hv hfin.2.2).toD⟩
@@ -406,7 +406,7 @@ theorem rmdirTail_cons (d0 : Disk) (pp : Path) (n : Name) (s' : St) (h : RmReady
       intro hwe
       cases res with
       | ok u s5 => exact ⟨hwe.1, hwe.2.1, hwe.2.2.toD⟩
-      | err e s5 => exact hwe
+      | err e s5 => exact hwe.elim
     · rw [if_neg hneed]
       have hcond : pr.opq = true ∨ lowerEntryExists s0.disk pm n = false := by
         by_cases ho : pr.opq = true
@@ -467,9 +467,9 @@ theorem doRm_rmdir_cons (pp : Path) (n : Name) :
     directory is what it was, up to xattrs of parent directories that had to be copied up -/
 theorem doRm_rmdir_frame (d : Disk) (pp : Path) (n : Name) :
     Triple (CD d) (doRm pp n true) (fun _ s => Consistent s ∧ FrameD d s.disk (n :: pp))
-      (fun s => Consistent s ∧ FrameD d s.disk (n :: pp)) := by
-  have hE : ∀ s, CD d s → Consistent s ∧ FrameD d s.disk (n :: pp) :=
-    fun s h => ⟨h.1, by rw [h.2]; exact FrameD.refl d _⟩
+      (fun s => Consistent s ∧ ViewD d s.disk) := by
+  have hE : ∀ s, CD d s → Consistent s ∧ ViewD d s.disk :=
+    fun s h => ⟨h.1, by rw [h.2]; exact ViewD.refl d⟩
   unfold doRm
   refine Triple.bind (Q := fun _ => CD d) ?_ fun up => ?_
   · intro s hs
